@@ -55,6 +55,38 @@ impl Doc {
         }
     }
 }
+/// a sink that refuses more than 4 MiB: a printer that never stops producing output becomes an error, not an OOM
+struct Bounded {
+    buf: String,
+}
+impl fmt::Write for Bounded {
+    fn write_str(&mut self, s: &str) -> fmt::Result {
+        if self.buf.len() + s.len() > (4 << 20) {
+            return Err(fmt::Error);
+        }
+        self.buf.push_str(s);
+        Ok(())
+    }
+}
+/// Ok(text) | Err("endless") when the sink overflowed (or the formatter reported an error)
+fn render_bounded<T: fmt::Display + fmt::Debug>(arena: &indextree::Arena<T>, id: indextree::NodeId, mode: &str) -> Result<String, String> {
+    use fmt::Write;
+    let p = id.debug_pretty_print(arena);
+    let mut w = Bounded { buf: String::new() };
+    let r = match mode {
+        "{}" => write!(w, "{}", p),
+        "{:#}" => write!(w, "{:#}", p),
+        "{:?}" => write!(w, "{:?}", p),
+        _ => write!(w, "{:#?}", p),
+    };
+    HEARTBEAT.fetch_add(1, std::sync::atomic::Ordering::Relaxed);
+    match r {
+        Ok(()) => Ok(w.buf),
+        Err(_) => Err(format!("printing did not stop (more than {} bytes of output)", w.buf.len())),
+    }
+}
+static HEARTBEAT: std::sync::atomic::AtomicU64 = std::sync::atomic::AtomicU64::new(0);
+static CURRENT: std::sync::Mutex<String> = std::sync::Mutex::new(String::new());
 fn fnv(h: &mut u64, bytes: &[u8]) {
     for b in bytes {
         *h ^= *b as u64;
@@ -141,12 +173,44 @@ pub fn run(args: &[String]) -> i32 {
     let mut nviol = 0u64;
     let mut samples: Vec<serde_json::Value> = Vec::new();
     let odd = args.iter().any(|a| a == "--digest-odd");
+    // a rendering that neither returns nor produces output: after 60 s without progress the case is reported and the run ends
+    {
+        let out = out.clone();
+        std::thread::spawn(move || {
+            let mut last = HEARTBEAT.load(std::sync::atomic::Ordering::Relaxed);
+            let mut idle = 0u32;
+            loop {
+                std::thread::sleep(std::time::Duration::from_secs(5));
+                let now = HEARTBEAT.load(std::sync::atomic::Ordering::Relaxed);
+                let cur = CURRENT.lock().map(|c| c.clone()).unwrap_or_default();
+                if now != last || cur.is_empty() {
+                    last = now;
+                    idle = 0;
+                    continue;
+                }
+                idle += 1;
+                if idle >= 12 {
+                    let case: serde_json::Value = serde_json::from_str(&cur).unwrap_or(json!({}));
+                    let d = format!("debug_pretty_print does not return within 60 s and produces no output ({})", cur);
+                    let res = json!({"bundles": 0, "abandoned_policy": 0, "renderings": now, "multi_line_renderings": 0, "lines_compared": 0, "violations": 1,
+                        "findings": [{"prop": "C02", "kind": "hang", "detail": d, "case": case}, {"prop": "C14", "kind": "rendering", "detail": d, "case": case}],
+                        "samples": [], "debug_assertions": cfg!(debug_assertions), "digest": "hang", "renderings_outside_c14_digested": 0});
+                    std::fs::write(&out, serde_json::to_string_pretty(&res).unwrap()).unwrap();
+                    std::process::exit(0);
+                }
+            }
+        });
+    }
     let mut digest: u64 = 0xcbf29ce484222325;
     let mut odd_renderings = 0u64;
+    let mut endless_seen = 0u32;
     for line in stdin.lock().lines() {
         let line = line.unwrap();
         if !line.starts_with('{') {
             continue;
+        }
+        if endless_seen >= 3 {
+            continue; // renderings that never stop have been reported; the rest of the battery is skipped
         }
         let b: PBundle = match serde_json::from_str(&line) {
             Ok(b) => b,
@@ -181,15 +245,19 @@ pub fn run(args: &[String]) -> i32 {
                 for (mode, letter) in [("{}", 'd'), ("{:#}", 'D'), ("{:?}", 'g'), ("{:#?}", 'G')] {
                     renderings += 1;
                     let a = &sim.arena;
-                    let got = std::panic::catch_unwind(std::panic::AssertUnwindSafe(|| {
-                        let p = id.debug_pretty_print(a);
-                        match mode {
-                            "{}" => format!("{}", p),
-                            "{:#}" => format!("{:#}", p),
-                            "{:?}" => format!("{:?}", p),
-                            _ => format!("{:#?}", p),
+                    if let Ok(mut c) = CURRENT.lock() {
+                        *c = serde_json::to_string(&json!({"path": b.path, "start": start, "mode": mode, "lines_per_slot": v.nl})).unwrap();
+                    }
+                    let got0 = std::panic::catch_unwind(std::panic::AssertUnwindSafe(|| render_bounded(a, id, mode)));
+                    let mut endless: Option<String> = None;
+                    let got: Result<String, ()> = match got0 {
+                        Ok(Ok(t)) => Ok(t),
+                        Ok(Err(e)) => {
+                            endless = Some(e);
+                            Err(())
                         }
-                    }));
+                        Err(_) => Err(()),
+                    };
                     match &got {
                         Ok(t) => fnv(&mut digest, t.as_bytes()),
                         Err(_) => fnv(&mut digest, b"<panic>"),
@@ -197,15 +265,10 @@ pub fn run(args: &[String]) -> i32 {
                     if odd && vi == 0 {
                         for m in 1..=3 {
                             ODD.store(m, std::sync::atomic::Ordering::Relaxed);
-                            let g = std::panic::catch_unwind(std::panic::AssertUnwindSafe(|| {
-                                let p = id.debug_pretty_print(a);
-                                match mode {
-                                    "{}" => format!("{}", p),
-                                    "{:#}" => format!("{:#}", p),
-                                    "{:?}" => format!("{:?}", p),
-                                    _ => format!("{:#?}", p),
-                                }
-                            }));
+                            let g: Result<String, ()> = match std::panic::catch_unwind(std::panic::AssertUnwindSafe(|| render_bounded(a, id, mode))) {
+                                Ok(Ok(t)) => Ok(t),
+                                _ => Err(()),
+                            };
                             ODD.store(0, std::sync::atomic::Ordering::Relaxed);
                             odd_renderings += 1;
                             match &g {
@@ -230,7 +293,7 @@ pub fn run(args: &[String]) -> i32 {
                     }
                     let mut bad: Option<String> = None;
                     match &got {
-                        Err(_) => bad = Some("printing panicked".into()),
+                        Err(_) => bad = Some(endless.clone().unwrap_or_else(|| "printing panicked".into())),
                         Ok(txt) => {
                             let gl: Vec<&str> = txt.split('\n').collect();
                             if gl.len() != want_lines.len() {
@@ -251,9 +314,18 @@ pub fn run(args: &[String]) -> i32 {
                     if samples.len() < 2 && bundles % 211 == 5 && want_lines.len() >= 5 && vi == 0 {
                         samples.push(json!({"path": b.path, "start": start, "mode": mode, "lines_per_slot": v.nl, "printed": got.as_ref().ok()}));
                     }
+                    if endless.is_some() {
+                        endless_seen += 1;
+                    }
+                    if let Some(e) = &endless {
+                        if !findings.iter().any(|f| f["prop"] == "C02") {
+                            findings.push(json!({"prop": "C02", "kind": "hang", "detail": format!("debug_pretty_print from slot {} in mode {} with lines-per-slot {:?} does not return: {}", start, mode, v.nl, e),
+                                "case": {"path": b.path, "start": start, "mode": mode, "lines_per_slot": v.nl}}));
+                        }
+                    }
                     if let Some(d) = bad {
                         nviol += 1;
-                        if findings.len() < 5 {
+                        if findings.iter().filter(|f| f["prop"] == "C14").count() < 5 {
                             let w: Vec<&String> = want_lines.iter().map(|x| &x.0).collect();
                             findings.push(json!({"prop": "C14", "kind": "rendering", "detail": format!("debug_pretty_print from slot {} in mode {} with lines-per-slot {:?}: {}", start, mode, v.nl, d),
                                 "case": {"path": b.path, "start": start, "mode": mode, "lines_per_slot": v.nl, "expected": w, "observed": got.ok()}}));
